@@ -2,4 +2,5 @@
 //! checks live here.
 pub mod crashsim;
 pub mod hist;
+pub mod http;
 pub mod sched;
